@@ -717,11 +717,8 @@ func isTokenSource(c *Ctx, info *types.Info, e ast.Expr, readFn *core.Func) bool
 	if g == nil {
 		return false
 	}
-	if g.Short == "(*lexer).tr" && len(call.Args) == 1 {
+	if g == c.fn(g.Pkg.Name+".(*lexer).tr") && len(call.Args) == 1 {
 		return isTokenSource(c, info, call.Args[0], readFn)
-	}
-	if !strings.HasPrefix(g.Short, "(*lexer).scan") {
-		return false
 	}
 	sig := fo.Type().(*types.Signature)
 	if sig.Results().Len() != 1 || sig.Results().At(0).Type().String() != "int" {
